@@ -350,5 +350,24 @@ class SymSet(set):
         r.update(other)
         return r
 
+    __ror__ = __or__
+    union = __or__
+
+    def __sub__(self, other):
+        o = other if isinstance(other, SymSet) else SymSet(other)
+        return SymSet([x for x in self._items if not o.s_contains(x)], self._frozen)
+
+    def __rsub__(self, other):
+        return SymSet([x for x in other if not self.s_contains(x)], self._frozen)
+
+    difference = __sub__
+
+    def __and__(self, other):
+        o = other if isinstance(other, SymSet) else SymSet(other)
+        return SymSet([x for x in self._items if o.s_contains(x)], self._frozen)
+
+    __rand__ = __and__
+    intersection = __and__
+
     def __repr__(self):
         return "SymSet(" + ", ".join(map(repr, self._items)) + ")"
